@@ -250,7 +250,7 @@ def run_case(case, rec=None):
 def run_shard(shard, tier, seed, rec):
     H.install_work_guard()
     i = shard["i"]
-    n = {"quick": 40, "thorough": 1200}[tier]
+    n = {"quick": 80, "thorough": 1200}[tier]
     cls_name = "IH5Record" if i % 2 == 0 else "IH5MFRecord"
     fu = st.lists(H.histories(1, 8, boundary_weight=0), min_size=0, max_size=3)
     strat = st.builds(lambda h, f, mc: dict(history=h, followups=f if mc is None else [], cls=cls_name, merge_cls=mc),
